@@ -268,7 +268,8 @@ def challenge(R):
     g = R.cfg(q)
     f = R.func(q)
     s = getattr(R, '_c10_hash_input', None)
-    ok = isinstance(s, ast.BinOp) and isinstance(s.op, ast.Add) and U(s.left) == 'self.key' \
+    from .common import pfold
+    ok = isinstance(s, ast.BinOp) and isinstance(s.op, ast.Add) and 'self.key' in (U(s.left), pfold(R, g.ctx, s.left)) \
         and fold(R, s.right, g.ctx) == GUID
     R.ob('C10.challenge', 'digest input is key + RFC 6455 GUID', ok, 'sha1 input is %s (GUID folds to %r)' % (
         U(s), fold(R, s.right, g.ctx) if isinstance(s, ast.BinOp) else None), func=f, node=s)
@@ -283,7 +284,7 @@ def challenge(R):
     q2 = WS + '.build_request'
     hdrs = _header_pairs(R, q2)
     v = hdrs.get(b'Sec-WebSocket-Key')
-    R.ob('C10.challenge', 'request carries the same key', v is not None and U(v) == 'self.key',
+    R.ob('C10.challenge', 'request carries the same key', v is not None and 'self.key' in (U(v), pfold(R, R.ctx(q2), v)),
          'Sec-WebSocket-Key value is %s' % U(v), func=q2, node=v, construct='request key %s' % U(v))
     R.ob('C10.challenge', 'GUID constant', module_consts(R, 'constants').get('WS_KEY') == GUID,
          'constants.WS_KEY = %r' % module_consts(R, 'constants').get('WS_KEY'), func=q, node=None, construct='WS_KEY')
